@@ -284,6 +284,25 @@ SPECS["C06"] = {"run": prog_check(["perm"], "C06"), "replay": prog_replay,
                 "assumptions": P_ASSUME + ["units from F-scc and F-shape; identifiers reserved by the generated code are not used as names"]}
 
 
+def c15_run(prop, tier, seed):
+    from vlib import c15
+    return c15.run(prop, tier, seed)
+
+
+def c15_replay(prop, path, tier, seed):
+    from vlib import c15
+    r = json.load(open(path))["replay"]
+    errs, compiled = c15.stage2([{"key": "replay", "kind": r["kind"], "items": r["program"], "m": r}])
+    ok = bool(errs.get("replay")) and not any("panicked" in e for e in errs["replay"])
+    print("replay: rustc says: %s" % (errs.get("replay") or ["<compiles>"])[:2])
+    return 0 if ok else 1
+
+
+SPECS["C15"] = {"run": c15_run, "replay": c15_replay,
+                "technique": "exhaustive enumeration of single ill-formedness mutations at every position of a set of base programs x the four macros; stage 1 runs the real macro implementation inside rustc (hook macro), stage 2 compiles every variant the macro accepted (plus representatives) and requires a compile error located at the program",
+                "assumptions": COMMON_ASSUME + ["hook: verif_expand_status! (feature verif-hooks) exposes accept / reject / panic of the macro implementation", "mutations are applied to the printed program text"]}
+
+
 def ds_check(dsname):
     def run(prop, tier, seed):
         reps = [run_family(prop, "ds", tier, seed, prop, extra_args=["--only-tag", "ds-%s-" % dsname])]
